@@ -186,7 +186,10 @@ class H5Reader:
                 if indices is None:
                     return None
 
-                array = group["Data"].get(label.replace("/", "\u2044"))
+                # arrays of the group itself (surveys, trace) are stored next to "Data"
+                array = None
+                if "Data" in group:
+                    array = group["Data"].get(label.replace("/", "\u2044"))
                 if array is None:
                     array = group.get(label.replace("/", "\u2044"))
 
